@@ -5,7 +5,7 @@
   A *renaming* is a permutation `π` (with inverse `π'`) of the definition indices `[0, n)`.
   `Spec.rename π π' sp` is the program in which the definition that `sp` has at index `i` sits at index
   `π i` (every operand index, loop target, stored value, `once` flag and creation stamp moved along);
-  `Events.rename π ev` moves the injected events.  Theorems, all for every one of the 30 constructors:
+  `Events.rename π ev` moves the injected events.  Theorems, all for every one of the 31 constructors:
 
   * `val_rename`        : start-of-transaction cell values commute with the renaming;
   * `fireOf_rename`     : the firing equation commutes with the renaming;
@@ -66,6 +66,7 @@ def Def.rename (π : Nat → Nat) : Def → Def
   | .sloop => .sloop
   | .cloop => .cloop
   | .route src sel k => .route (π src) sel k
+  | .when s t => .when (π s) (π t)
 
 /-- every definition index a definition mentions -/
 def Def.indices : Def → List Nat
@@ -73,7 +74,7 @@ def Def.indices : Def → List Nat
   | .map s _ | .mapto s _ | .filter s _ | .hold s _ | .once s | .accum s _ _ | .collect s _ _
   | .defer s | .split s _ | .route s _ _ => [s]
   | .updates c | .value c | .mapc c _ => [c]
-  | .merge a b _ | .orelse a b | .lift2 a b _ => [a, b]
+  | .merge a b _ | .orelse a b | .lift2 a b _ | .when a b => [a, b]
   | .snapshot s c _ | .snapshot1 s c | .gate s c | .holdz s c => [s, c]
   | .snapshotn s cs => s :: cs
   | .liftn cs => cs
@@ -416,6 +417,10 @@ theorem fireOf_rename (R : Renames π sp sp') (S : Scoped sp) (P : IsPerm sp.def
   | route src sel k =>
     rw [hd] at hidx; rw [hd, Def.rename] at hd'
     rw [fireOf_route _ _ _ _ hd, fireOf_route _ _ _ _ hd', hL src (hidx src (by simp [Def.indices]))]
+  | «when» a b =>
+    rw [hd] at hidx; rw [hd, Def.rename] at hd'
+    rw [fireOf_when _ _ _ _ hd, fireOf_when _ _ _ _ hd', hL a (hidx a (by simp [Def.indices])),
+      hL b (hidx b (by simp [Def.indices]))]
 
 end commute
 
